@@ -152,6 +152,23 @@ class Floor:
         return f"{self.fn}({self.inner!r})"
 
 
+class Choice:
+    """A value selected elementwise between alternatives by a condition the folder does not decide (np.where on a tolerance test)."""
+
+    def __init__(self, alts, why):
+        self.alts, self.why = list(alts), why
+
+    def __repr__(self):
+        return f"where[{self.why}](" + " | ".join(repr(a) for a in self.alts) + ")"
+
+
+class Undecided:
+    """Boolean array the folder cannot decide (np.isclose and friends)."""
+
+    def __init__(self, why):
+        self.why = why
+
+
 class Cols:
     """Array with one symbolic entry per column (single point or one-point-per-row batch)."""
 
@@ -165,7 +182,7 @@ class Cols:
 def _ew(op, a, b):
     """Elementwise arithmetic on Poly / Cols / int lists."""
     def bin_(x, y):
-        if isinstance(x, Floor) or isinstance(y, Floor) or x is None or y is None:
+        if isinstance(x, (Floor, Choice)) or isinstance(y, (Floor, Choice)) or x is None or y is None:
             raise Refuse("arithmetic on an unset or rounded column")
         x = x if isinstance(x, Poly) else Poly.const(x)
         y = y if isinstance(y, Poly) else Poly.const(y)
@@ -311,9 +328,27 @@ class ColFolder(Folder):
 
     c_np_zeros_like = c_np_empty_like
 
+    def c_np_isclose(self, a, kw):
+        return Undecided("np.isclose")
+
+    c_np_allclose = c_np_isclose
+
+    def c_np_where(self, a, kw):
+        if len(a) == 3 and isinstance(a[0], Undecided):
+            _, x, y = a
+            pick = lambda u, v: u if u is v else Choice([u, v], a[0].why)
+            if isinstance(x, Cols) and isinstance(y, Cols) and len(x.cols) == len(y.cols):
+                return Cols([pick(u, v) for u, v in zip(x.cols, y.cols)])
+            if not isinstance(x, Cols) and not isinstance(y, Cols):
+                return pick(x, y)
+            raise Refuse("np.where operands")
+        return super().c_np_where(a, kw)
+
     def _round(self, fn, v):
         if isinstance(v, Cols):
             return Cols([self._round(fn, x) for x in v.cols])
+        if isinstance(v, Choice):
+            return Floor(v, fn)
         if isinstance(v, Floor):
             return v  # rounding an already rounded (integral) value
         if isinstance(v, Poly):
@@ -473,7 +508,14 @@ def rule_b(ctx):
                 ctx.ob(R, f_inv.qname, f"dim {d}: voxel index {mi} is the np.floor of an affine expression", is_floor,
                        f"matrix component {mi} is {e!r}: a float->int conversion that is not floor truncates toward zero (wrong on the negative halo)", f_inv.node)
                 inner = e.inner if isinstance(e, Floor) else (e if isinstance(e, Poly) else None)
-                if inner is None:
+                if isinstance(inner, Choice):
+                    # named contradiction: floor(snap(x)) with snap(x) != x for some x strictly inside a voxel (within the tolerance of its
+                    # upper face) gives the next voxel
+                    ctx.ob(R, f_inv.qname, f"dim {d}: the argument of the floor for voxel index {mi} is the affine expression itself", False,
+                           f"the argument is {inner!r}: a value snapped to a rounded neighbour under a tolerance test ({inner.why}) before the floor -- a point strictly inside "
+                           "the voxel within that tolerance of its upper face converts to the next voxel (the tolerance of np.isclose grows with the index)", f_inv.node, evidence=True)
+                    continue
+                if not isinstance(inner, Poly):
                     continue
                 comp = inner
                 # substitute the forward map: Cartesian input column c := coordinate column c of voxel V
